@@ -100,6 +100,8 @@ def gen_plan(rng, index, tier):
             p["errno"] = rng.choice(["ENOSPC", "EIO"])
     if p["model_type"] == "single_instance":
         p["data"] = "synthetic"  # the asset has two animals per frame
+    if p["origin"] == "yaml" and rng.random() < 0.5:
+        p["yaml_filename"] = True  # the loaded config records the path of the YAML file it came from (which still holds the key)
     if p.get("rerun") and rng.random() < 0.6:
         others = [m for m in MODEL_TYPES if m != p["model_type"] and (m != "single_instance")]
         p["rerun_other_model"] = rng.choice(others)
@@ -234,6 +236,10 @@ def execute(plan, choices=None):
                     elif art["final_diffs"]:
                         V("final_config_differs", art["final_diffs"][0][0],
                           f"final training_config.yaml differs from the configuration the trainer used at {art['final_diffs']}; plan={describe(plan)}")
+                    if art.get("final_diffs") is not None and art.get("wandb_run_id") is not None and art.get("final_run_id") != art["wandb_run_id"]:
+                        # "the configuration actually used": with tracking on, the run it logged to is part of it (it is what resuming needs)
+                        V("final_config_differs", "trainer_config.wandb.run_id",
+                          f"final training_config.yaml records run_id {art.get('final_run_id')!r} but the training logged to run {art['wandb_run_id']!r}; plan={describe(plan)}")
                     if plan["save_ckpt"] and not art.get("best"):
                         V("artifact_missing", "best.ckpt", f"checkpointing is on but best.ckpt is missing; files={res['files']}")
                     if plan["save_ckpt"] and plan["save_last"] and not art.get("last"):
@@ -279,6 +285,7 @@ def execute(plan, choices=None):
             "npz_chunks_written": int(any(e[1].endswith(".npz") for e in events)),
             "wandb_fake_used": int(any("/wandb/" in e[1] for e in events)),
             "structured_origin": int(plan["origin"] == "structured"),
+            "config_records_source_yaml_path": int(bool(plan.get("yaml_filename"))),
             "fs_events": len(events),
         },
         "faults": faults,
